@@ -18,7 +18,7 @@ CONFIG = 'crates/anemo/src/config.rs'
 TYPES = P.TYPES
 TIMEOUT = 600
 # vacuity guard: cover points that must be reached: history: an add onto an existing entry; ticks: a dial, a re-dial after 1 failure, after 2
-COVER = {'active_peers_history': [0, 1], 'who_is_dialed': [0], 'background_dialing_ticks': [0, 1, 3, 4]}
+COVER = {'active_peers_history': [0, 1], 'who_is_dialed': [0], 'background_dialing_ticks': [0, 1, 3, 4], 'dial_races_inbound_connect': [0, 3, 5]}
 
 PRELUDE = r'''// GENERATED on every run by /verif/vc from /repo's working tree -- do not edit
 #![allow(dead_code, unused, non_upper_case_globals, non_camel_case_types, static_mut_refs)]
@@ -227,7 +227,7 @@ pub fn main() {
     if args.len() == 4 && args[1] == "--replay" {
         // re-run ONE choice sequence with the panic message visible
         let choices: Vec<(u32, u32)> = args[3].split(',').filter(|s| !s.is_empty()).map(|s| (s.trim().parse().unwrap(), u32::MAX)).collect();
-        let f: fn(&mut Chooser) = match args[2].as_str() { "active_peers_history" => harness::active_peers_history, "mutual_dial_converges" => harness::mutual_dial_converges, "who_is_dialed" => harness::who_is_dialed, _ => harness::background_dialing_ticks };
+        let f: fn(&mut Chooser) = match args[2].as_str() { "active_peers_history" => harness::active_peers_history, "mutual_dial_converges" => harness::mutual_dial_converges, "who_is_dialed" => harness::who_is_dialed, "dial_races_inbound_connect" => harness::dial_races_inbound_connect, _ => harness::background_dialing_ticks };
         reset_statics();
         let mut ch = Chooser { path: choices, pos: 0 };
         f(&mut ch);
@@ -239,6 +239,7 @@ pub fn main() {
     run_all("mutual_dial_converges", harness::mutual_dial_converges);
     run_all("who_is_dialed", harness::who_is_dialed);
     run_all("background_dialing_ticks", harness::background_dialing_ticks);
+    run_all("dial_races_inbound_connect", harness::dial_races_inbound_connect);
 }
 pub mod harness {
     use super::*;
@@ -356,14 +357,17 @@ pub mod harness {
         let aff = [any_affinity(ch), any_affinity(ch)];
         let naddr: [usize; 2] = [ch.below(3) as usize, ch.below(3) as usize];
         let connected1 = ch.any_bool();
-        dialing_run(ch, cap, ids, aff, naddr, connected1, 1);
+        dialing_run(ch, cap, ids, aff, naddr, connected1, 1, false);
     }
     pub fn background_dialing_ticks(ch: &mut Chooser) { // @EOBL [C13] @BOUNDED every run of 4 connectivity checks over 2 High-affinity peers with 1..2 addresses each, cap 1 or 100, every dial in flight failing, succeeding or staying in flight, established connections possibly lost again, time advancing by 1s/10s/61s: never two concurrent dials to a peer, addresses rotate by CONSECUTIVE failure count, after k consecutive failures the next dial comes strictly later than noticed + min(60s, k x 10s), the cap on connections being established is respected, and at every check exactly min(eligible, free slots) dials are started (no eligible peer is left waiting while slots are free)
         let cap: usize = if ch.any_bool() { 1 } else { 100 };
         let naddr: [usize; 2] = [1 + ch.below(2) as usize, 1 + ch.below(2) as usize];
-        dialing_run(ch, cap, [P1, P2], [PeerAffinity::High, PeerAffinity::High], naddr, false, 4);
+        dialing_run(ch, cap, [P1, P2], [PeerAffinity::High, PeerAffinity::High], naddr, false, 4, false);
     }
-    fn dialing_run(ch: &mut Chooser, cap: usize, ids: [PeerId; 2], aff: [PeerAffinity; 2], naddr: [usize; 2], connected1: bool, ticks: usize) {
+    pub fn dial_races_inbound_connect(ch: &mut Chooser) { // @EOBL [C13,C06] @BOUNDED every run of 3 connectivity checks over 2 High-affinity peers (one address each, no cap) in which a peer that is being dialed may itself connect to us before that dial completes, the dial then failing, succeeding or staying in flight: the connection manager never panics (in particular every dial it started is answered to whoever waits for it), never dials a connected peer, and the back-off / rotation / one-dial-per-peer rules still hold
+        dialing_run(ch, 100, [P1, P2], [PeerAffinity::High, PeerAffinity::High], [1, 1], false, 3, true);
+    }
+    fn dialing_run(ch: &mut Chooser, cap: usize, ids: [PeerId; 2], aff: [PeerAffinity; 2], naddr: [usize; 2], connected1: bool, ticks: usize, inbound_race: bool) {
         let config = Arc::new(Config { max_concurrent_outstanding_connecting_connections: Some(cap), connection_backoff_ms: None, max_connection_backoff_ms: None, max_concurrent_connections: None });
         let known = KnownPeers::new();
         let mut i = 0;
@@ -421,6 +425,12 @@ pub mod harness {
                 assert!(addr == (10 * p + (m.fails[p] as usize % naddr[p])) as u8, "address rotation does not follow the consecutive-failure count");
                 m.dialing[p] = true; cover(0);
                 d += 1;
+            }
+            // a peer we are dialing may meanwhile connect to us (its own dial won the race): the dial in flight then still completes, either way
+            let mut p = 0;
+            while p < 2 {
+                if inbound_race && m.dialing[p] && !m.connected[p] && ch.any_bool() { next_sid += 1; let _ = cm.active_peers.add(&ME, conn(next_sid, ids[p], ConnectionOrigin::Inbound)); m.connected[p] = true; cover(5); }
+                p += 1;
             }
             // let some of the dials in flight complete: failure or success (the event loop hands the result to handle_connecting_result)
             let mut t = 0;
@@ -516,7 +526,7 @@ def build(ctx):
     if getattr(C, 'tier', 'quick') == 'thorough':
         # the thorough tier explores one step deeper (histories of 5 set operations, 5 connectivity checks)
         for a, b in (('while step < 4 {', 'while step < 5 {'), ('every history of 4 operations', 'every history of 5 operations'),
-                     ('naddr, false, 4);', 'naddr, false, 5);'), ('every run of 4 connectivity checks', 'every run of 5 connectivity checks')):
+                     ('naddr, false, 4, false);', 'naddr, false, 5);'), ('every run of 4 connectivity checks', 'every run of 5 connectivity checks')):
             assert h.count(a) == 1, a
             h = h.replace(a, b)
     t += h
